@@ -42,6 +42,49 @@ func pkgReach(roots ...*ssa.Function) []*ssa.Function {
 	return out
 }
 
+// privateReach: fn and the private (unexported or literal) functions of its
+// package that it statically reaches — the units a maintainer may split fn into.
+func privateReach(fn *ssa.Function) []*ssa.Function {
+	var out []*ssa.Function
+	for _, f := range pkgReach(fn) {
+		if f == fn || f.Parent() != nil || f.Object() == nil || !f.Object().Exported() {
+			out = append(out, f)
+		}
+	}
+	return out
+}
+
+// callerArg: v is a parameter of a private helper that root reaches and that
+// is called from exactly one place there: the value passed at that place
+// (followed up through further helpers); otherwise v itself.
+func callerArg(v ssa.Value, root *ssa.Function) ssa.Value {
+	for d := 0; d < 4; d++ {
+		prm, ok := v.(*ssa.Parameter)
+		if !ok || prm.Parent() == root {
+			return v
+		}
+		h := prm.Parent()
+		pi := paramIndex(h, prm)
+		var arg ssa.Value
+		sites := 0
+		for _, g := range privateReach(root) {
+			for _, b := range g.Blocks {
+				for _, ins := range b.Instrs {
+					if ci, ok := ins.(ssa.CallInstruction); ok && ci.Common().StaticCallee() == h && pi >= 0 && pi < len(ci.Common().Args) {
+						sites++
+						arg = ci.Common().Args[pi]
+					}
+				}
+			}
+		}
+		if sites != 1 {
+			return v
+		}
+		v = arg
+	}
+	return v
+}
+
 // morassFieldOps lists, per field of Morass, the writes / reads in fn.
 func morassFieldOps(fn *ssa.Function, typ string) (writes, reads map[string][]ssa.Instruction) {
 	writes, reads = map[string][]ssa.Instruction{}, map[string][]ssa.Instruction{}
